@@ -63,7 +63,7 @@ func (ft *funcTr) finish(m mode, ind string) string {
 	switch m.kind {
 	case mTail:
 		if ft.sig.Results().Len() == 0 {
-			return ind + "Ok tt\n"
+			return ind + "Ok " + ft.wrapRet("tt") + "\n"
 		}
 		return ind + "unreachable\n"
 	case mOut:
@@ -109,7 +109,15 @@ func (ft *funcTr) block(list []ast.Stmt, m mode, ind string) string {
 		return ft.forStmt(s, rest, m, ind)
 	case *ast.RangeStmt:
 		return ft.rangeStmt(s, rest, m, ind)
+	case *ast.SwitchStmt:
+		return ft.block(append(ft.desugarSwitch(s), rest...), m, ind) // state.go
 	case *ast.AssignStmt, *ast.DeclStmt, *ast.IncDecStmt, *ast.ExprStmt:
+		if isNoReturnStmt(s) {
+			return ft.failStmt(s, m, ind) // methods.go
+		}
+		if isPanicStmt(s) {
+			return ft.panicStmt(s, ind) // state.go
+		}
 		return ft.simple(s, ind) + ft.block(rest, m, ind)
 	}
 	ft.t.fail(s, "statement of kind %T", s)
@@ -147,6 +155,7 @@ func (ft *funcTr) returnStmt(s *ast.ReturnStmt, m mode, ind string) string {
 	default:
 		ft.t.fail(s, "return with a wrong number of results")
 	}
+	val = ft.wrapRet(val) // methods.go
 	switch m.kind {
 	case mTail:
 		return binds(pres, ind) + ind + "Ok " + val + "\n"
@@ -285,7 +294,7 @@ func (ft *funcTr) forStmt(s *ast.ForStmt, rest []ast.Stmt, m mode, ind string) s
 	if s.Cond != nil {
 		condN = s.Cond
 	}
-	vars := ft.assigned(lo, hi, s.Body, postN)
+	vars := ft.assigned(lo, hi, s.Body, postN, condN)
 	ro := minus(ft.free(lo, hi, condN, s.Body, postN), vars)
 	S := ft.tupleType(vars)
 	in := "    "
@@ -415,6 +424,12 @@ func (ft *funcTr) simple(s ast.Stmt, ind string) string {
 	t := ft.t
 	switch s := s.(type) {
 	case *ast.ExprStmt:
+		if out, ok := ft.stateCallStmt(s, ind); ok {
+			return out // state.go
+		}
+		if out, ok := ft.callStmt(s, ind); ok {
+			return out // methods.go
+		}
 		if c, ok := s.X.(*ast.CallExpr); ok && ft.builtin(c) == "copy" && len(c.Args) == 2 {
 			dst := ft.rootVar(c.Args[0])
 			pres, src := ft.expr(c.Args[1], nil)
@@ -422,6 +437,9 @@ func (ft *funcTr) simple(s ast.Stmt, ind string) string {
 				t.fail(s, "copy on slices other than []byte")
 			}
 			return binds(pres, ind) + fmt.Sprintf("%slet %s : bytes := go_copy %s %s in\n", ind, ft.names[dst], ft.names[dst], src)
+		}
+		if c, ok := s.X.(*ast.CallExpr); ok && ft.mutTarget(c) != nil {
+			return ft.mutStmt(c, ind)
 		}
 		t.fail(s, "expression statement (only copy(dst, src) is supported)")
 	case *ast.IncDecStmt:
@@ -433,6 +451,9 @@ func (ft *funcTr) simple(s ast.Stmt, ind string) string {
 		return ft.assignOp(s, s.X, op, one, "1%Z", ind)
 	case *ast.DeclStmt:
 		gd, ok := s.Decl.(*ast.GenDecl)
+		if ok && gd.Tok == token.CONST {
+			return "" // a local constant: its uses are constants (data.go)
+		}
 		if !ok || gd.Tok != token.VAR {
 			t.fail(s, "local declaration other than var")
 		}
@@ -527,12 +548,25 @@ func (ft *funcTr) store(n ast.Node, lhs ast.Expr, val string, ind string) string
 		}
 		return fmt.Sprintf("%slet %s : %s := %s in\n", ind, ft.names[v], t.coqType(x, v.Type()), strings.Join(parts, " "))
 	case *ast.IndexExpr:
+		if ft.isRefMapExpr(x.X) {
+			return ft.refMapStore(n, x, val, ind) // methods.go
+		}
+		if tx, ok := ft.storeExt(x, val, ind); ok {
+			return tx
+		}
 		v := ft.rootVar(x.X)
 		if _, ok := ast.Unparen(x.X).(*ast.Ident); !ok || t.kindOf(v.Type()) != kBytes {
 			t.fail(lhs, "element store other than into a []byte variable")
 		}
 		pres, idx := ft.expr(x.Index, nil)
 		return binds(pres, ind) + fmt.Sprintf("%s%s <- go_store %s %s %s ;;\n", ind, ft.names[v], ft.names[v], idx, val)
+	case *ast.StarExpr:
+		// *p = v for a pointer parameter p (state.go)
+		v := ft.rootVar(x.X)
+		if _, ok := ast.Unparen(x.X).(*ast.Ident); !ok || t.kindOf(v.Type()) != kPtrVal {
+			t.fail(lhs, "store through something other than a pointer parameter")
+		}
+		return fmt.Sprintf("%s%s <- go_ptr_store %s %s ;;\n", ind, ft.names[v], ft.names[v], val)
 	}
 	t.fail(lhs, "assignment to this kind of expression")
 	return ""
@@ -560,6 +594,9 @@ func (ft *funcTr) lhsType(e ast.Expr) types.Type {
 func (ft *funcTr) assign(n ast.Node, lhs, rhs []ast.Expr, ind string) string {
 	t := ft.t
 	var b strings.Builder
+	if out, ok := ft.assignFromMutating(n, lhs, rhs, ind); ok {
+		return out // methods.go
+	}
 	if len(lhs) == len(rhs) {
 		var pres []pre
 		var vals []string
@@ -609,9 +646,13 @@ func (ft *funcTr) assign(n ast.Node, lhs, rhs []ast.Expr, ind string) string {
 	if len(rhs) != 1 {
 		t.fail(n, "assignment with %d left and %d right operands", len(lhs), len(rhs))
 	}
+	var call ast.Expr
 	call, ok := ast.Unparen(rhs[0]).(*ast.CallExpr)
 	if !ok {
-		t.fail(n, "tuple assignment from something other than a call")
+		if !ft.isCommaOkMap(rhs[0]) {
+			t.fail(n, "tuple assignment from something other than a call")
+		}
+		call = ast.Unparen(rhs[0]) // v, ok := m[k] on an association-list map (data.go)
 	}
 	pres, val := ft.expr(call, nil)
 	var pats, later []string
